@@ -434,12 +434,18 @@ var (
 
 const maxSamples = 6
 
+// quiet suppresses the evidence counters while a found violation is being minimised.
+var quiet bool
+
 // Count records one property-body execution with its class labels. fingerprint
 // is the identity of the case if it is non-trivial by the check's rule, "" if it
 // is trivial.
 func Count(fingerprint string, classes ...string) {
 	recMu.Lock()
 	defer recMu.Unlock()
+	if quiet {
+		return
+	}
 	rec.Evaluations++
 	if fingerprint != "" {
 		fps[fingerprint] = struct{}{}
@@ -453,6 +459,9 @@ func Count(fingerprint string, classes ...string) {
 func Class(classes ...string) {
 	recMu.Lock()
 	defer recMu.Unlock()
+	if quiet {
+		return
+	}
 	for _, c := range classes {
 		rec.Classes[c]++
 	}
@@ -461,30 +470,45 @@ func Class(classes ...string) {
 // AddEvaluations adds n to the evaluation counter (for checks whose cases
 // contain many oracle comparisons, e.g. inner histories).
 func AddEvaluations(n int) {
+	if quiet {
+		return
+	}
 	recMu.Lock()
 	rec.Evaluations += n
 	recMu.Unlock()
 }
 
 func AddFingerprint(fp string) {
+	if quiet {
+		return
+	}
 	recMu.Lock()
 	fps[fp] = struct{}{}
 	recMu.Unlock()
 }
 
 func Excluded(key string) {
+	if quiet {
+		return
+	}
 	recMu.Lock()
 	rec.Excluded[key]++
 	recMu.Unlock()
 }
 
 func DontCare(key string) {
+	if quiet {
+		return
+	}
 	recMu.Lock()
 	rec.DontCare[key]++
 	recMu.Unlock()
 }
 
 func Invalid() {
+	if quiet {
+		return
+	}
 	recMu.Lock()
 	rec.Invalid++
 	recMu.Unlock()
@@ -503,6 +527,9 @@ func Note(format string, a ...any) {
 func Sample(v any) {
 	recMu.Lock()
 	defer recMu.Unlock()
+	if quiet {
+		return
+	}
 	if len(rec.Samples) < maxSamples {
 		rec.Samples = append(rec.Samples, v)
 	}
@@ -542,6 +569,10 @@ type Check[C any] struct {
 	// Run judges a case; nil means the property held. It must be a pure function
 	// of the case and the code under test (it may call Count/Sample/etc).
 	Run func(c C) *Violation
+	// Reduce (optional) lists cases one step simpler than c. When a campaign finds a
+	// violation, the harness greedily walks these candidates, keeping one whenever it still
+	// fails with the same key, so that the saved replay (and its key) is canonical.
+	Reduce func(c C) []C
 }
 
 var lastViolation struct {
@@ -629,9 +660,49 @@ func replayMain[C any](t *testing.T, chk Check[C], dirs []string) {
 	}
 }
 
+// minimize greedily applies chk.Reduce while the violation key stays the same. The time
+// budget only bounds how small the saved replay gets; it never affects a verdict.
+func minimize[C any](chk Check[C], c C, v *Violation) (C, *Violation) {
+	if chk.Reduce == nil {
+		return c, v
+	}
+	quiet = true
+	defer func() { quiet = false }()
+	deadline := time.Now().Add(Pick(5*time.Minute, 12*time.Minute))
+	steps := 0
+	for improved := true; improved && time.Now().Before(deadline); {
+		improved = false
+		for _, cand := range chk.Reduce(c) {
+			if time.Now().After(deadline) {
+				break
+			}
+			var v2 *Violation
+			var infra string
+			func() {
+				defer func() {
+					if r := recover(); r != nil {
+						infra = fmt.Sprint(r)
+					}
+				}()
+				v2, infra = runGuard(chk, cand)
+			}()
+			if infra == "" && v2 != nil && v2.Key == v.Key {
+				c, v, improved = cand, v2, true
+				steps++
+				break
+			}
+		}
+	}
+	v.Observed += fmt.Sprintf("\n(minimised in %d structural steps)", steps)
+	return c, v
+}
+
 func campaignMain[C any](t *testing.T, chk Check[C]) {
 	defer func() {
 		if lastViolation.seen {
+			if c, ok := lastViolation.c.(C); ok {
+				lastViolation.c, lastViolation.v = minimize(chk, c, lastViolation.v)
+			}
 			dir := saveReplay(lastViolation.c, lastViolation.v)
 			rec.Violations = append(rec.Violations, violationOut{Key: lastViolation.v.Key, Msg: lastViolation.v.Msg, Replay: dir})
 		}
